@@ -134,6 +134,10 @@ def crate_source(defs, queries, values):
             lines.append(l)
         lines.append("")
     lines.append("fn main() {")
+    lines.append("    // the work runs on a thread with a large stack: in a debug build every temporary of this function has a slot of its own")
+    lines.append("    std::thread::Builder::new().stack_size(1 << 30).spawn(real_main).unwrap().join().unwrap();")
+    lines.append("}")
+    lines.append("fn real_main() {")
     lines.append("    std::panic::set_hook(Box::new(|_| ()));")
     lines.append("    if let Ok(path) = std::env::var(\"CORPUS_WITNESSES\") {")
     lines.append("        for line in std::fs::read_to_string(path).unwrap().lines() {")
